@@ -70,7 +70,7 @@ impl<'a> Parser<'a> {
                 let mut g: BaseCausalGraph<'static> = CausaloidGraph::new_with_capacity(4);
                 let mut kids = Vec::new();
                 for (i, (c, k, kd)) in nodes.into_iter().enumerate() {
-                    let ix = if root >= 0 && i as i128 == root { g.add_root_causaloid(c) } else { g.add_causaloid(c) };
+                    let ix = if is_root(root, i) { g.add_root_causaloid(c) } else { g.add_causaloid(c) };
                     assert_eq!(ix, i);
                     kids.push((k, kd));
                 }
@@ -86,6 +86,12 @@ impl<'a> Parser<'a> {
     }
 }
 
+// root field of a graph: -1 none | r | r + 1000 * (1 + r0): node r0 < r is added with add_root_causaloid as well, EARLIER than
+// the final root r (re-rooting: the last add_root_causaloid decides where reasoning starts)
+fn is_root(root: i128, i: usize) -> bool {
+    root >= 0 && (i as i128 == root % 1000 || (root >= 1000 && i as i128 == root / 1000 - 1))
+}
+
 fn mk_shape(c: &'static C, kids: Vec<(usize, Shape)>, kind: i128) -> Shape {
     match kind {
         0 => Shape::Single(c),
@@ -93,11 +99,15 @@ fn mk_shape(c: &'static C, kids: Vec<(usize, Shape)>, kind: i128) -> Shape {
     }
 }
 
+// activation is read through the trait method is_active(); the inherent getter active() is a second route to the same answer:
+// a difference is reported as 7 instead of 0 / 1
+fn act(c: &C) -> i128 { let a = c.is_active(); if c.active() != a { 7 } else { a as i128 } }
+
 fn preorder(s: &Shape, out: &mut Vec<i128>) {
     match s {
-        Shape::Single(c) => out.push(c.is_active() as i128),
+        Shape::Single(c) => out.push(act(c)),
         Shape::Wrap(c, kids) => {
-            out.push(c.is_active() as i128);
+            out.push(act(c));
             for k in kids { preorder(k, out); }
         }
     }
@@ -210,7 +220,7 @@ pub fn run_rm(args: &[i128], cont: usize, rm: bool) -> Vec<i128> {
             }
             let mut kids = Vec::new();
             for (i, (c, k, kd)) in nodes.into_iter().enumerate() {
-                let ix = if root >= 0 && i as i128 == root { g.add_root_causaloid(c) } else { g.add_causaloid(c) };
+                let ix = if is_root(root, i) { g.add_root_causaloid(c) } else { g.add_causaloid(c) };
                 assert_eq!(ix, i);
                 kids.push((k, kd));
             }
